@@ -167,3 +167,8 @@ def run(repo: Repo, rep: Report, tier: str) -> None:
     for e in c.errors:
         rep.undecide("corpus", e)
     r09_4(repo, rep, c)
+
+
+_ADDENDUM = " R09.5: get_discriminator(look_in_parents) walks the whole MRO, nearest first, through each class's own Config. R09.6: dataclass_fields drops an inherited Field when the class re-annotates the name without a Field of its own (no inherited alias / options)."
+EXPLANATION += _ADDENDUM
+LEVEL_TEXT += _ADDENDUM
